@@ -1,27 +1,30 @@
 /-
   C02 — Reading builds exactly the graph the string denotes.
 
-  PARTIAL (stage 1).  Proved here, for every event history (hence every accepted string):
-    * one atom per atom token, numbered in order of appearance, carrying exactly the written attributes
-      (`atoms_in_order`; a non-root atom with a configuration and a virtual hydrogen has its `@`/`@@` mark
-      adjusted — the convention of C03);
-    * a dot creates no bond (`root_creates_no_bond`);
-    * an atom token after a bond is recorded on both ends, with the written kind on the near end and the
-      reversed kind on the far end, the new atom's list starting with the preceding atom
-      (`extend_both_ends`);
-    * a ring-closure digit that is not open is recorded at its own position and opens the number; an
-      elided side of a closure takes the kind written on the other side, a directional kind being seen
-      reversed from the far end (`reconcile` table);
-    * tokens are read left to right, each exactly once (T-tok, C07) and the event stream is conformant (C08).
-  Not yet a theorem: `build es = denote es` for the independent, non-incremental denotation of DESIGN.md
-  4.2 (partners of every atom in written order, ring digits paired with the nearest preceding open digit).
-  That is decided on every run by the oracle's independent interpreter of SMILES (tokenise, explicit-stack
-  interpretation written from the property text) compared with `Builder::build()`.
+  `reading_builds_denotation`: for EVERY string (and every history of follower calls) on which the builder
+  succeeds, the adjacency list it returns IS the declarative denotation `Spec.denote` of the history
+  (Purr/Spec/Denote.lean — no builder, no mutable node list, no placeholders):
+    * one atom per atom token, numbered in order of appearance, with the written attributes (a non-root
+      atom with a configuration and a virtual hydrogen has its `@`/`@@` mark adjusted — the convention of
+      C03);
+    * the bond list of an atom is read off the events in written order: the bond to the preceding atom
+      (kind reversed) first, then ring-closure digits, branches and the chain successor as they appear;
+    * every bond is recorded on both ends; a ring-closure digit pairs with the nearest preceding open digit
+      with the same number (one left-to-right scan), and the two ends get the reconciled kinds — an elided
+      side takes the kind written on the other side, a directional kind is seen reversed from the far end;
+    * a dot creates no bond.
+  Proof (Purr/Lemmas/DenoteL.lean): an invariant over every prefix of the history — the builder's node for
+  atom `i` lists exactly the half-bonds the events so far contribute to `i`, a digit whose partner has not
+  been seen yet being the placeholder for its number — preserved by each of the five kinds of step.
+  The per-event theorems of stage 1 are kept below.  The reader's side (tokens are read left to right,
+  each exactly once; the event stream is conformant) is C07 / C08 / C09.  The oracle's independent
+  interpreter of SMILES is still compared with `Builder::build()` on every run.
 -/
 import Purr.Lemmas.BuilderL
 import Purr.Props.C10
+import Purr.Lemmas.DenoteL
 namespace Purr.C02
-open Purr
+open Purr Purr.Spec
 
 /-- one atom per atom token, in order of appearance, with the written attributes -/
 theorem atoms_in_order (es : List Event) (g : Graph) (h : build? es = some (.ok g)) :
@@ -84,5 +87,38 @@ theorem closure_kinds (l r : BondKind) : reconcile l r = C10.reconcileSpec l r :
 theorem elided_takes_other_kind (k : BondKind) :
     reconcile .elided k = some (k.reverse, k) ∧ reconcile k .elided = some (k, k.reverse) := by
   cases k <;> exact ⟨rfl, rfl⟩
+
+/-- READING BUILDS THE DENOTATION: for every string, if the builder driven by the reader succeeds, the graph is
+    the declarative denotation of the events read. -/
+theorem reading_builds_denotation (s : Str) (g : Graph) (h : build? (read s).1 = some (.ok g)) :
+    g = denote (read s).1 := build_eq_denote _ g h
+
+/-- … and for any history of follower calls whatsoever -/
+theorem history_builds_denotation (es : List Event) (g : Graph) (h : build? es = some (.ok g)) : g = denote es :=
+  build_eq_denote es g h
+
+/-! non-vacuity and a reading of the definition (histories written out, `read` being defined by
+    well-founded recursion): `C1CC1C1CC1` — a re-used ring number, two digits on one atom; `C/1(.O)CN1` — a dot
+    inside a branch, the elided closing side taking the directional kind, reversed -/
+def r1 : Rnum := ⟨1, by decide⟩
+def exReuse : List Event :=
+  [.root (.aliphatic .C), .join .elided r1, .extend .elided (.aliphatic .C), .extend .elided (.aliphatic .C), .join .elided r1,
+   .extend .elided (.aliphatic .C), .join .elided r1, .extend .elided (.aliphatic .C), .extend .elided (.aliphatic .C), .join .elided r1]
+
+example : denote exReuse =
+    [⟨.aliphatic .C, [⟨.elided, 2⟩, ⟨.elided, 1⟩]⟩, ⟨.aliphatic .C, [⟨.elided, 0⟩, ⟨.elided, 2⟩]⟩,
+     ⟨.aliphatic .C, [⟨.elided, 1⟩, ⟨.elided, 0⟩, ⟨.elided, 3⟩]⟩,
+     ⟨.aliphatic .C, [⟨.elided, 2⟩, ⟨.elided, 5⟩, ⟨.elided, 4⟩]⟩, ⟨.aliphatic .C, [⟨.elided, 3⟩, ⟨.elided, 5⟩]⟩,
+     ⟨.aliphatic .C, [⟨.elided, 4⟩, ⟨.elided, 3⟩]⟩] := by decide
+
+def exDot : List Event :=
+  [.root (.aliphatic .C), .join .up r1, .root (.aliphatic .O), .pop 1, .extend .elided (.aliphatic .C),
+   .extend .elided (.aliphatic .N), .join .elided r1]
+
+example : denote exDot =
+    [⟨.aliphatic .C, [⟨.up, 3⟩, ⟨.elided, 2⟩]⟩, ⟨.aliphatic .O, []⟩, ⟨.aliphatic .C, [⟨.elided, 0⟩, ⟨.elided, 3⟩]⟩,
+     ⟨.aliphatic .N, [⟨.elided, 2⟩, ⟨.down, 0⟩]⟩] := by decide
+
+example : build? exDot = some (.ok (denote exDot)) := rfl
 
 end Purr.C02
